@@ -24,4 +24,13 @@ META = {
   "note": "Trusted: Coq kernel + vm_compute; the hand-written LTS (atomicity of map/channel/lock operations, RWMutex contract); the harness's trace annotation; scheduler fairness.",
   "technique": "Coq invariant + simulation proofs over an interleaving model (LTS) with explicit runtime panics + scripted close-injection correspondence replayed by vm_compute + free-running -race stress in child processes",
 }
-KNOWN = []
+KNOWN = [
+ {"property": "C10", "id": "F16a", "status": "fixed", "commit": "0fcb997",
+  "what": "Subscribe(0); Publish(1); Close() (Subscriber.Close or Publication.Close) while the delivery goroutine is still waiting to send: 'panic: send on closed channel' in the delivery goroutine; the race detector also reports close vs send on the channel",
+  "line": "fixed: property=C10 0fcb997 closing a subscriber/publication while a delivery is pending panicked with 'send on closed channel'",
+  "signature": "^script:panic: send on closed channel:|^c10-stress:(race|panic: send on closed channel)$"},
+ {"property": "C10", "id": "F16b", "status": "fixed", "commit": "32c85be",
+  "what": "two concurrent closers of the same subscriber (Subscriber.Close twice, or racing Publication.Close) both find it in the map (Load, then close, then Delete) and close its channel twice: 'panic: close of closed channel'",
+  "line": "fixed: property=C10 32c85be concurrent Close calls closed a subscriber's channel twice ('close of closed channel')",
+  "signature": "^c10-stress:panic: close of closed channel$"},
+]
